@@ -205,6 +205,32 @@ example : newUpstream "https://dns.example/dns-query".toList "@sock".toList =
     .ok ⟨.https, false, false, "unix".toList, "@sock".toList, "dns.example".toList, "dns.example".toList⟩ := by
   decide
 
+
+/-- The known corner that is *outside* the property (`dial_addr` is documented as "an IP or a domain,
+    port optional"; a bracketed IPv6 literal without port is neither): the brackets are kept and
+    bracketed again, the result `[[x]]:port` cannot be dialled (no connection is made at all). -/
+theorem bracketed_dial_addr_without_port_corner (url x d : Str) (hx : isV6Body x = true) :
+    getDialAddr url ('[' :: x ++ [']']) d = '[' :: '[' :: x ++ ']' :: ']' :: ':' :: d := by
+  have f := v6_facts hx
+  have hl : lastIndexOf ':' ('[' :: x ++ [']']) ≠ none := by
+    obtain ⟨a, b, e, nb⟩ := exists_last_split f.colon
+    have e2 : '[' :: x ++ [']'] = ('[' :: a) ++ ':' :: (b ++ [']']) := by simp [e]
+    rw [e2, lastIndexOf_append]
+    · simp
+    · simp [nb]
+  have hi : indexOf ']' ('[' :: x ++ [']']) = some (x.length + 1) := by
+    have := indexOf_append (c := ']') (a := '[' :: x) [] (by simp [f.rb])
+    simpa using this
+  have hs : splitHostPort ('[' :: x ++ [']']) = .error .missingPort := by
+    unfold splitHostPort
+    cases h : lastIndexOf ':' ('[' :: x ++ [']']) with
+    | none => exact absurd h hl
+    | some i =>
+      simp only [List.cons_append] at hi
+      simp [hi]
+  simp only [List.cons_append] at hs
+  simp [getDialAddr, hasAtPrefix, trySplitHostPort, hs, joinHostPort, f.colon]
+
 /-- ★ the executable specification used as oracle for the real `NewUpstream` holds of the model on
     every case (every scheme × host form × port × path × dial_addr form × name service). -/
 theorem dial_model_meets_spec (c : Case) : specDial c (modelDial c) = true :=
